@@ -449,6 +449,56 @@ def prune_item():
             "Definition gen_prune (again should_run : bool) : bool := %s.\n" % (_cmt(ast.unparse(st.test)), cond))
 
 
+def should_run_item():
+    """RunExperiment.should_run: the decision list (which existing version makes a re-run unnecessary)"""
+    f = _find_method("conductor/task_types/run.py", "RunExperiment", "should_run")
+    body = _body_without_docstring(f)
+    leaves = {"self._most_relevant_version is None": "sel_none", "at_least_commit is None": "al_none",
+              "self._most_relevant_version.commit_hash is None": "vc_none",
+              "self._most_relevant_version.commit_hash == at_least_commit": "same_commit",
+              "ctx.git.is_ancestor(at_least_commit, self._most_relevant_version.commit_hash)": "older"}
+    skip_calls = {"self._ensure_most_relevant_existing_version_computed(ctx)"}
+    skip_assigns = {"self._did_retrieve_version = False"}
+    env = dict(leaves)
+
+    def cond(node):
+        src = ast.unparse(node)
+        if src in env:
+            return env[src]
+        if isinstance(node, ast.UnaryOp) and isinstance(node.op, ast.Not):
+            return "(negb %s)" % cond(node.operand)
+        if isinstance(node, ast.BoolOp):
+            op = {ast.And: " && ", ast.Or: " || "}[type(node.op)]
+            return "(" + op.join(cond(v) for v in node.values) + ")"
+        raise Unsupported("condition outside the supported fragment: %s" % src)
+
+    def block(stmts):
+        if not stmts:
+            raise Unsupported("a path of should_run ends without a return")
+        st, rest = stmts[0], stmts[1:]
+        src = ast.unparse(st)
+        if isinstance(st, ast.Return):
+            if isinstance(st.value, ast.Constant) and isinstance(st.value.value, bool):
+                return "true" if st.value.value else "false"
+            raise Unsupported("should_run returns a non-constant: %s" % src)
+        if isinstance(st, ast.Expr) and src in skip_calls:
+            return block(rest)
+        if isinstance(st, ast.Assign) and src in skip_assigns:
+            return block(rest)
+        if isinstance(st, ast.Assign) and len(st.targets) == 1 and isinstance(st.targets[0], ast.Name) and ast.unparse(st.value) in env:
+            env[st.targets[0].id] = env[ast.unparse(st.value)]
+            return block(rest)
+        if isinstance(st, ast.If):
+            then = block(st.body)
+            other = block(st.orelse) if st.orelse else block(rest)
+            return "(if %s then %s else %s)" % (cond(st.test), then, other)
+        raise Unsupported("statement outside the supported fragment: %s" % src)
+
+    expr = block(body)
+    return ("(* conductor/task_types/run.py RunExperiment.should_run *)\n"
+            "Definition gen_should_run (sel_none al_none vc_none same_commit older : bool) : bool := %s.\n" % expr)
+
+
 def version_item():
     """VersionIndex.generate_new_output_version: the timestamp as a function of the clock and the last timestamp"""
     f = _find_method("conductor/execution/version_index.py", "VersionIndex", "generate_new_output_version")
@@ -513,7 +563,7 @@ def generate():
         failures["task_type_table"] = "%s: %s" % (type(ex).__name__, ex)
         parts.append("(* task_type_table: NOT TRANSLATED: %s *)\n" % str(ex).replace("*)", "* )"))
     for coqname, fn in (("gen_gate_open", gate_item), ("gen_new_version", version_item), ("gen_loop_goes_on", loop_item), ("gen_wants_slot", slot_item),
-                        ("gen_prune", prune_item)):
+                        ("gen_prune", prune_item), ("gen_should_run", should_run_item)):
         try:
             parts.append(fn())
         except Exception as ex:  # pylint: disable=broad-except
